@@ -1,6 +1,218 @@
 import RulioModel.MatchSpec
+import RulioModel.MatchFrag
+import RulioProofs.MatchExamples
+import RulioProofs.MatchCompleteG
+import RulioProofs.MatchBound
 
-/-! # C05 — the matcher is sound and complete for partial matching (property theorems only) -/
+/-! # C05 — the matcher is sound and complete for partial matching (property theorems only)
+
+Model: `matchJ` (`RulioModel/Match.lean`, line-by-line port of sheens `match` as configured by rulio).
+Specification: `pmv σ p d` (`RulioModel/MatchSpec.lean`): the bindings `σ` lay pattern `p` over datum `d`
+as a partial match with every variable bound to exactly the value at its position.
+Fragment: `patOK p`, `dataOK d`, and the scalar-repeats condition `scalarRepeatsIn σ p bs`
+(`RulioModel/MatchFrag.lean`): every variable that occurs more than once in `p`, or is bound in the
+incoming bindings `bs`, is bound to a scalar in `σ`.  Helper lemmas live in `RulioProofs/Match*.lean`. -/
 
 /-- the specification relation is monotone in the bindings (what lets the left-to-right threading compose) -/
 theorem sol_mono {σ σ' : Bs} (he : σ.Ext σ') {p d : J} (h : Sol σ p d) : Sol σ' p d := Sol.mono he h
+
+/-- **Soundness.** Inside the fragment every binding `σ` returned by the matcher extends the incoming
+bindings and lays the pattern over the datum (`pmv`), provided the variables that repeat in the pattern or
+were already bound are bound to scalars in `σ`.  Full fragment: nested maps, arrays as sets with
+backtracking over structured elements, one array variable. -/
+theorem match_sound (p d : J) (bs : Bs) (bss : List Bs) (σ : Bs)
+    (hp : patOK p = true) (hd : dataOK d = true)
+    (hr : matchJ p d bs = .ok bss) (hσ : σ ∈ bss)
+    (hsc : scalarRepeatsIn σ p bs = true) :
+    bs.Ext σ ∧ pmv σ p d = true := by
+  obtain ⟨h1, _, h3⟩ := soundJ p hp d bs bss σ hd hr hσ
+  exact ⟨h1, h3 σ (Bs.Ext.refl σ) ((scalarRepeatsIn_iff σ p bs).1 hsc)⟩
+
+/-- Every returned binding is minimal: it binds nothing besides the incoming bindings and the variables of
+the pattern (no scalar hypothesis needed). -/
+theorem match_result_minimal (p d : J) (bs : Bs) (bss : List Bs) (σ : Bs)
+    (hp : patOK p = true) (hd : dataOK d = true)
+    (hr : matchJ p d bs = .ok bss) (hσ : σ ∈ bss) :
+    bs.Ext σ ∧ minimalFor σ p bs = true := by
+  obtain ⟨h1, h2, _⟩ := soundJ p hp d bs bss σ hd hr hσ
+  exact ⟨h1, (minimalFor_iff σ p bs).2 h2⟩
+
+/-- **Completeness.** Inside the fragment every minimal specification binding `σ` (it extends `bs`, lays
+`p` over `d`, binds nothing else, and binds repeated / pre-bound variables to scalars) is returned by the
+matcher, up to equality as a finite map. -/
+theorem match_complete (p d : J) (bs : Bs) (bss : List Bs) (σ : Bs)
+    (hp : patOK p = true) (hd : dataOK d = true)
+    (hr : matchJ p d bs = .ok bss)
+    (hext : bs.Ext σ) (hpm : pmv σ p d = true)
+    (hmin : minimalFor σ p bs = true) (hsc : scalarRepeatsIn σ p bs = true) :
+    ∃ σ' ∈ bss, ∀ k, σ'.get? k = σ.get? k := by
+  have hSC := (scalarRepeatsIn_iff σ p bs).1 hsc
+  obtain ⟨σ', hσ', hσ'σ⟩ := completeJ σ p hp d bs bss hd hr hext hSC hpm
+  refine ⟨σ', hσ', Bs.same_of_ext hσ'σ ?_⟩
+  -- σ' binds everything σ binds: the incoming bindings and every variable of p
+  obtain ⟨hbσ', _, hpm'⟩ := soundJ p hp d bs bss σ' hd hr hσ'
+  have hpmσ' : pmv σ' p d = true := by
+    apply hpm' σ' (Bs.Ext.refl _)
+    intro y hy hc
+    have := hSC y hy hc
+    unfold scalarAt at this ⊢
+    cases hg : σ'.get? y with
+    | none => rfl
+    | some w => rw [hσ'σ y w hg] at this; exact this
+  intro k hk
+  rcases (minimalFor_iff σ p bs).1 hmin k hk with hb | hv
+  · cases hg : bs.get? k with
+    | none => exact absurd hg hb
+    | some w => rw [hbσ' k w hg]; simp
+  · exact pmv_vars_bound p hp d hpmσ' k hv
+
+/-- **Completeness without the scalar condition.** If moreover every map inside the datum has pairwise
+distinct keys (`dataKeysOK`, always true of decoded JSON / Go maps), *every* minimal specification binding
+is returned, whether or not repeated variables are bound to scalars: the matcher never misses a solution in
+the fragment; only soundness depends on the scalar-repeats condition. -/
+theorem match_complete_noscalar (p d : J) (bs : Bs) (bss : List Bs) (σ : Bs)
+    (hp : patOK p = true) (hd : dataOK d = true) (hk : dataKeysOK d = true)
+    (hr : matchJ p d bs = .ok bss)
+    (hext : bs.Ext σ) (hpm : pmv σ p d = true) (hmin : minimalFor σ p bs = true) :
+    ∃ σ' ∈ bss, ∀ k, σ'.get? k = σ.get? k := by
+  obtain ⟨σ', hσ', hσ'σ⟩ := completeG σ p hp d bs bss ⟨hd, hk⟩ hr hext hpm
+  obtain ⟨hbσ', hbound⟩ := boundJ p hp d bs bss σ' hr hσ'
+  refine ⟨σ', hσ', Bs.same_of_ext hσ'σ ?_⟩
+  intro k hk'
+  rcases (minimalFor_iff σ p bs).1 hmin k hk' with hb | hv
+  · exact ext_bound hbσ' hb
+  · exact hbound k hv
+
+/-- Every returned binding binds every variable of the pattern (with `match_result_minimal`: its domain is
+exactly the incoming bindings plus the variables of the pattern). -/
+theorem match_result_binds_all (p d : J) (bs : Bs) (bss : List Bs) (σ : Bs)
+    (hp : patOK p = true) (hr : matchJ p d bs = .ok bss) (hσ : σ ∈ bss) :
+    ∀ y ∈ varsOf p, (σ.get? y).isSome = true := by
+  intro y hy
+  exact Option.isSome_iff_ne_none.2 ((boundJ p hp d bs bss σ hr hσ).2 y hy)
+
+/-- **Guard.** With ground data and ground incoming bindings the matcher never reports `nonGround`: the
+data-as-pattern call `match(binding, fact)` is only ever made on ground bindings, which is the guard under
+which the real recursion is bounded.  Holds for every pattern, inside or outside the fragment. -/
+theorem match_no_nonground (p d : J) (bs : Bs)
+    (hd : d.ground = true) (hbs : ∀ kv ∈ bs, kv.2.ground = true) :
+    matchJ p d bs ≠ .error .nonGround := by
+  intro h
+  have := ngJ p d bs hd hbs
+  rw [h] at this
+  exact this.1 rfl
+
+/-- With ground data and ground incoming bindings every returned binding is ground again (so the guard
+of `match_no_nonground` is preserved when results are fed back as incoming bindings). -/
+theorem match_result_ground (p d : J) (bs : Bs) (bss : List Bs) (σ : Bs)
+    (hd : d.ground = true) (hbs : ∀ kv ∈ bs, kv.2.ground = true)
+    (hr : matchJ p d bs = .ok bss) (hσ : σ ∈ bss) : ∀ kv ∈ σ, kv.2.ground = true := by
+  have := ngJ p d bs hd hbs
+  rw [hr] at this
+  exact this σ hσ
+
+/-- **Totality inside the fragment.** For a pattern of the fragment, well-formed data and ground incoming
+bindings the matcher reports no error at all, so `match_sound` / `match_complete` describe its whole
+behaviour there. -/
+theorem match_ok (p d : J) (bs : Bs)
+    (hp : patOK p = true) (hd : dataOK d = true)
+    (hbs : ∀ kv ∈ bs, kv.2.ground = true ∧ dataOK kv.2 = true) :
+    ∃ bss, matchJ p d bs = .ok bss := by
+  have := ngJ p d bs (dataOK_ground d hd) (fun kv hkv => (hbs kv hkv).1)
+  cases hr : matchJ p d bs with
+  | ok bss => exact ⟨bss, rfl⟩
+  | error e => rw [hr] at this; have := this.2; rw [hp] at this; cases this
+
+/-- **The result set is determined by the specification.** Two patterns of the fragment with the same
+variables (as a multiset) and the same specification on `d` return the same bindings, as sets of finite
+maps (for the bindings that satisfy the scalar condition).  Since `pmv` does not depend on the order of
+map pairs, this is what discharges Go's random map iteration. -/
+theorem match_results_determined (p q d : J) (bs : Bs) (bss1 bss2 : List Bs)
+    (hp : patOK p = true) (hq : patOK q = true) (hd : dataOK d = true)
+    (hvars : (varsOf p).Perm (varsOf q)) (hspec : ∀ σ, pmv σ p d = pmv σ q d)
+    (h1 : matchJ p d bs = .ok bss1) (h2 : matchJ q d bs = .ok bss2) :
+    (∀ σ ∈ bss1, scalarRepeatsIn σ p bs = true → ∃ σ' ∈ bss2, ∀ k, σ'.get? k = σ.get? k) ∧
+    (∀ σ ∈ bss2, scalarRepeatsIn σ q bs = true → ∃ σ' ∈ bss1, ∀ k, σ'.get? k = σ.get? k) :=
+  ⟨fun _ hσ hsc => results_determined hp hq hd hvars hspec h1 h2 hσ ((scalarRepeatsIn_iff _ _ _).1 hsc),
+   fun _ hσ hsc => results_determined hq hp hd hvars.symm (fun σ => (hspec σ).symm) h2 h1 hσ
+     ((scalarRepeatsIn_iff _ _ _).1 hsc)⟩
+
+/-- **Order independence.** Permuting the key/value pairs of any map of the pattern, or the elements of
+any array of the pattern, at any depth (`PatPerm`), keeps the pattern in the fragment and permutes the
+result set: the two calls return the same bindings as sets of finite maps. -/
+theorem match_order_independent (p q d : J) (bs : Bs) (bss1 bss2 : List Bs)
+    (hpq : PatPerm p q) (hp : patOK p = true) (hd : dataOK d = true)
+    (h1 : matchJ p d bs = .ok bss1) (h2 : matchJ q d bs = .ok bss2) :
+    patOK q = true ∧
+    (∀ σ ∈ bss1, scalarRepeatsIn σ p bs = true → ∃ σ' ∈ bss2, ∀ k, σ'.get? k = σ.get? k) ∧
+    (∀ σ ∈ bss2, scalarRepeatsIn σ q bs = true → ∃ σ' ∈ bss1, ∀ k, σ'.get? k = σ.get? k) := by
+  obtain ⟨hq, hvars, hspec⟩ := hpq.inv.2.2 hp
+  exact ⟨hq, match_results_determined p q d bs bss1 bss2 hp hq hd hvars (fun σ => hspec σ d) h1 h2⟩
+
+/-- The scalar condition itself does not depend on the order (so the two halves of
+`match_order_independent` speak about the same bindings). -/
+theorem scalarRepeatsIn_order_independent (p q : J) (σ bs : Bs) (hpq : PatPerm p q) (hp : patOK p = true) :
+    scalarRepeatsIn σ p bs = scalarRepeatsIn σ q bs := by
+  obtain ⟨_, hvars, _⟩ := hpq.inv.2.2 hp
+  rw [Bool.eq_iff_iff, scalarRepeatsIn_iff, scalarRepeatsIn_iff]
+  exact ⟨SC.perm hvars, SC.perm hvars.symm⟩
+
+set_option linter.unusedSimpArgs false in
+/-- **Negative theorem (finding C05).** Outside the scalar-repeats fragment soundness fails and the result
+depends on the key order: for the pattern `{"a":"?x","b":"?x"}` and the datum
+`{"a":{"k":1},"b":{"k":1,"j":2}}`, with key order `a,b` the matcher returns the binding `?x={"k":1}`
+although the value at `b` differs (`pmv` is false for it), and with key order `b,a` it returns no match. -/
+theorem repeated_var_structured_counterexample :
+    let pab : J := .obj [("a", .str "?x"), ("b", .str "?x")]
+    let pba : J := .obj [("b", .str "?x"), ("a", .str "?x")]
+    let d : J := .obj [("a", .obj [("k", .num 1)]), ("b", .obj [("k", .num 1), ("j", .num 2)])]
+    let σ : Bs := [("?x", .obj [("k", .num 1)])]
+    matchJ pab d [] = .ok [σ] ∧ pmv σ pab d = false ∧ scalarRepeatsIn σ pab [] = false ∧
+    matchJ pba d [] = .ok [] ∧ patOK pab = true ∧ dataOK d = true := by
+  intro pab pba d σ
+  refine ⟨?_, ?_, ?_, ?_, ?_, ?_⟩
+  · simp [pab, d, σ, matchJ_obj, matchJ_str, matchO, matchStr, isVar, lookupKey, Bs.get?, Bs.set,
+      J.ground, groundO, gmatch, gmatchO, bind, Except.bind, pure, Except.pure]
+  · simp [pab, d, σ, pmv_obj, pmO, pmv_str, pmStr, isVar, lookupKey, Bs.get?]
+  · simp [pab, σ, scalarRepeatsIn, critVars, scalarAt, varsOf, varsOfO, count, isVar, Bs.get?, J.isScalar]
+  · simp [pba, d, matchJ_obj, matchJ_str, matchO, matchStr, isVar, lookupKey, Bs.get?, Bs.set,
+      J.ground, groundO, gmatch, gmatchO, bind, Except.bind, pure, Except.pure]
+  · simp [pab, patOK, patOKO, isVar, isOptVar]
+  · simp [d, dataOK, dataOKO, isVar]
+
+/-! ## The hypotheses are satisfiable by a non-trivial instance
+
+`exP = {"a":"?x","b":["?y",1,{"c":"?x"}]}`, `exD = {"a":2,"b":[1,{"c":2},"z"],"e":true}`,
+`exS = {"?y":"z","?x":2}` (`RulioProofs/MatchExamples.lean`): a nested map, an array with a variable, a scalar
+constant and a structured element, and a variable that occurs twice. -/
+
+/-- all hypotheses of `match_sound` hold for the instance, and its conclusion is the expected one -/
+example : patOK exP = true ∧ dataOK exD = true ∧ matchJ exP exD [] = .ok [exS] ∧ exS ∈ [exS] ∧
+    scalarRepeatsIn exS exP [] = true :=
+  ⟨exP_ok, exD_ok, ex_match, List.mem_singleton.2 rfl, ex_scalar⟩
+example : Bs.Ext [] exS ∧ pmv exS exP exD = true :=
+  match_sound exP exD [] [exS] exS exP_ok exD_ok ex_match (List.mem_singleton.2 rfl) ex_scalar
+
+/-- all hypotheses of `match_complete` hold for the instance -/
+example : Bs.Ext [] exS ∧ pmv exS exP exD = true ∧ minimalFor exS exP [] = true ∧
+    scalarRepeatsIn exS exP [] = true :=
+  ⟨fun _ _ h => by simp [Bs.get?] at h, ex_pmv, ex_minimal, ex_scalar⟩
+example : ∃ σ' ∈ [exS], ∀ k, σ'.get? k = exS.get? k :=
+  match_complete exP exD [] [exS] exS exP_ok exD_ok ex_match (fun _ _ h => by simp [Bs.get?] at h)
+    ex_pmv ex_minimal ex_scalar
+
+/-- the extra hypothesis of `match_complete_noscalar` holds for the instance -/
+example : dataKeysOK exD = true := exD_keys
+example : ∃ σ' ∈ [exS], ∀ k, σ'.get? k = exS.get? k :=
+  match_complete_noscalar exP exD [] [exS] exS exP_ok exD_ok exD_keys ex_match
+    (fun _ _ h => by simp [Bs.get?] at h) ex_pmv ex_minimal
+
+/-- the hypotheses of `match_ok` / `match_no_nonground` hold for the instance (empty incoming bindings) -/
+example : ∃ bss, matchJ exP exD [] = .ok bss :=
+  match_ok exP exD [] exP_ok exD_ok (fun _ h => by cases h)
+
+/-- `match_order_independent` applies to a genuine deep permutation of the instance -/
+example (bss2 : List Bs) (h2 : matchJ exP' exD [] = .ok bss2) :
+    ∃ σ' ∈ bss2, ∀ k, σ'.get? k = exS.get? k :=
+  (match_order_independent exP exP' exD [] [exS] bss2 ex_perm exP_ok exD_ok ex_match h2).2.1 exS
+    (List.mem_singleton.2 rfl) ex_scalar
